@@ -29,6 +29,14 @@ def detect(sh, case, driver='synthetic'):
     cols = case['table']
     thr = dict(case['thresholds'])
     df = pd.DataFrame({f: np.array(cols[f], dtype=float) for f in FEATS})
+    order = case.get('columns')
+    if order:
+        # a table assembled by the user (or re-ordered, e.g. df[sorted(df.columns)]): features are found by name, wherever they stand
+        for c in order:
+            if c not in df.columns:
+                df[c] = np.arange(len(df), dtype=float)
+        df = df[list(order)]
+        sh.note('table_columns_in_another_order')
     ix = case.get('index')
     if ix is not None and len(df):
         # a stretch / selection of a longer table keeps its row labels: labels are positional in the statement ("first and last
@@ -101,7 +109,19 @@ def synth_case(rng, n=None):
             r['min_n_cycles'] = r['min_n_cycles'] + int(rng.integers(0, 3))
         raised.append(r)
     index = [None, None, None, 'offset', 'gaps', 'reversed', 'strings'][int(rng.integers(0, 7))]
-    return {'table': cols, 'thresholds': thr, 'raised': raised, 'index': index}
+    columns = None
+    r = rng.random()
+    if r < 0.3:
+        columns = list(FEATS) + (['period', 'volt_amp', 'time_rdsym'] if r < 0.2 else [])
+        if r < 0.08:
+            columns = columns[::-1]
+        elif r < 0.16:
+            columns = sorted(columns)
+        else:
+            columns = [columns[i] for i in rng.permutation(len(columns))]
+        if columns[:4] == list(FEATS):
+            columns = columns[1:] + columns[:1]
+    return {'table': cols, 'thresholds': thr, 'raised': raised, 'index': index, 'columns': columns}
 
 
 def note_case(sh, case, lab):
